@@ -83,6 +83,10 @@ def t_sem(ctx):
             return (ga(cid, d, o), 'SA') if i != n - 1 else (gb(cid, d, o), 'SB')
     else:
         class K1:
+            if ctx.cfg.get('falsy'):
+                def __len__(self):       # a container-like owner that is currently empty: bool(instance) is False
+                    return 0
+
             @helpers.retry(semaphore_scope=scope, **kw)
             async def m(self, cid, d, o):
                 return await body(cid, d, o, self.key)
@@ -295,6 +299,8 @@ def jobs(tier):
         out.append(Job('C20', 'r.sem', t_sem, dict(L=1, n=3, scope='two_names', sem_timeout='1/2', raising=False, nd=1), witnesses=W))
         out.append(Job('C20', 'r.sem', t_sem, dict(L=1, n=3, scope='class', sem_timeout='1/2', raising=False, nd=1), witnesses=W))
         out.append(Job('C20', 'r.sem', t_sem, dict(L=1, n=3, scope='self', sem_timeout='1/2', raising=False, nd=1), witnesses=W))
+        out.append(Job('C20', 'r.sem', t_sem, dict(L=1, n=3, scope='self', sem_timeout='1/2', raising=False, nd=1, falsy=True), witnesses=W))
+        out.append(Job('C20', 'r.sem', t_sem, dict(L=1, n=3, scope='class', sem_timeout='1/2', raising=False, nd=1, falsy=True), witnesses=W))
         out.append(Job('C20', 'r.sem', t_sem, dict(L=2, n=3, scope='global', sem_timeout='1/2', raising=False, nd=1), witnesses=W))
         out.append(Job('C20', 'r.sem', t_sem, dict(L=2, n=4, scope='global', sem_timeout='2', raising=False, nd=1, pin_s1='0'), witnesses=W))
     else:
